@@ -126,6 +126,7 @@ package btree
 //@ func node.mutableFor
 //@   requires n != nil && cow != nil && allocated(n) && allocated(n.items) && allocated(n.children)
 //@   ensures #same old(n.cow) == cow ==> result == n
+//@   ensures #alloc nalloc() >= old(nalloc()) && allocated(result) && allocated(result.items) && allocated(result.children)
 //@   ensures #copy old(n.cow) != cow ==> result != n && isfresh(result) && result.cow == cow && (len(result.items) == 0 || isfresh(result.items)) && (len(result.children) == 0 || isfresh(result.children))
 //@   ensures #items len(result.items) == len(n.items) && forall j int :: { result.items[j] } 0 <= j && j < len(n.items) ==> result.items[j] == n.items[j]
 //@   ensures #children len(result.children) == len(n.children) && forall j int :: { result.children[j] } 0 <= j && j < len(n.children) ==> result.children[j] == n.children[j]
@@ -136,6 +137,7 @@ package btree
 //@ func node.mutableChild
 //@   requires n != nil && n.cow != nil && 0 <= i && i < len(n.children) && n.children[i] != nil && allocated(n) && allocated(n.children) && allocated(n.children[i]) && allocated(n.children[i].items) && allocated(n.children[i].children) && arrid(n.children) != arrid(n.children[i].children)
 //@   ensures #installed result != nil && n.children[i] == result && result.cow == n.cow && (old(n.children[i].cow) == n.cow ==> result == old(n.children[i])) && (old(n.children[i].cow) != n.cow ==> isfresh(result))
+//@   ensures #alloc nalloc() >= old(nalloc()) && allocated(result) && allocated(result.items) && allocated(result.children)
 //@   ensures #content len(result.items) == old(len(n.children[i].items)) && (forall j int :: { result.items[j] } 0 <= j && j < len(result.items) ==> result.items[j] == old(n.children[i].items[j])) && len(result.children) == old(len(n.children[i].children)) && (forall j int :: { result.children[j] } 0 <= j && j < len(result.children) ==> result.children[j] == old(n.children[i].children[j]))
 //@   ensures #others len(n.children) == old(len(n.children)) && (forall j int :: { n.children[j] } 0 <= j && j < len(n.children) && j != i ==> n.children[j] == old(n.children[j])) && n.items == old(n.items) && n.cow == old(n.cow)
 //@   modifies region($alloc), n.children[i:i+1]
